@@ -42,6 +42,7 @@ var canonRules = []string{
 	"domain: subjects / display names that already look like RFC 2047 encoded words (=?cs?e?text?=) are excluded: the server Q-encodes and the client decodes, so they cannot round-trip by construction; the same holds for Description and body-parameter VALUES, which the client also passes through the RFC 2047 decoder",
 	"domain: \"\\xff\" (invalid UTF-8) is used only in literal payloads; mailbox names are valid UTF-8; flags and attributes are atoms",
 	"domain: body structures are well-typed: Text is set exactly for type text, MessageRFC822 exactly for message/rfc822, multiparts have >= 1 child, Extended is set on every node when BODYSTRUCTURE is requested; NumLines/Size are non-negative",
+	"domain: mailbox names the CLIENT has to send (STATUS, SELECT) are non-empty and at most 4096 bytes (the server refuses larger buffered literals; the request direction is C02/C04's subject)",
 	"domain: in UID FETCH the backend writes the UID item before any literal (documented assumption of imapclient.handleFetch); INTERNALDATE is never the zero time",
 }
 
@@ -537,7 +538,10 @@ func printStatusUnrequested(f *flat, p string, d *imap.StatusData, o *imap.Statu
 }
 
 // printList prints a LIST item; so is the STATUS request of the LIST command (nil: none).
-func printList(f *flat, p string, d *imap.ListData, so *imap.StatusOptions) {
+// supplied: the value is what the backend handed to the writer (its Status travels only when
+// requested, and only the requested items of it); otherwise it is what the client delivered
+// (anything beyond the request is reported).
+func printList(f *flat, p string, d *imap.ListData, so *imap.StatusOptions, supplied bool) {
 	if d == nil {
 		f.s(p, "nil")
 		return
@@ -551,24 +555,28 @@ func printList(f *flat, p string, d *imap.ListData, so *imap.StatusOptions) {
 		f.n(p+".childinfo.subscribed", d.ChildInfo.Subscribed)
 	}
 	f.s(p+".oldname", q(foldInbox(d.OldName)))
-	if so == nil || d.Status == nil {
+	switch {
+	case d.Status == nil:
 		f.s(p+".status", "nil")
-		if so == nil && d.Status != nil {
-			f.s(p+".status", "present-unrequested")
-		}
-	} else {
+	case so == nil && supplied:
+		f.s(p+".status", "nil") // not requested: does not travel
+	case so == nil:
+		f.s(p+".status", "present-unrequested")
+	default:
 		printStatus(f, p+".status", d.Status, so)
-		printStatusUnrequested(f, p+".status", d.Status, so)
+		if !supplied {
+			printStatusUnrequested(f, p+".status", d.Status, so)
+		}
 	}
 }
 
-func printSelect(f *flat, p string, d *imap.SelectData) {
+func printSelect(f *flat, p string, d *imap.SelectData, supplied bool) {
 	printFlags(f, p+".flags", d.Flags)
 	printFlags(f, p+".permanentflags", d.PermanentFlags)
 	f.n(p+".nummessages", d.NumMessages)
 	f.n(p+".uidnext", d.UIDNext)
 	f.n(p+".uidvalidity", d.UIDValidity)
-	printList(f, p+".list", d.List, nil)
+	printList(f, p+".list", d.List, nil, supplied)
 }
 
 // ---------- SEARCH ----------
